@@ -10,18 +10,18 @@ from . import prog_common as PC
 from .c23 import fmt_answer, TIMEOUT_MSG
 
 ANCHORS = ['make_query', 'make_base_node', 'next_solution', 'solve', 'solve_all', 'start_query_timer', 'query_stopped', 'count_rules', 'clear_id']
-WITNESSES = {'all': ['history-abandoned', 'history-exhausted-and-reasked', 'history-timed-out', 'history-real-expiry', 'exhausted-query-reasked-during-probe', 'probe-built-before-history', 'probe-next_solution', 'probe-solve', 'probe-solve_all', 'has-answers']}
+WITNESSES = {'all': ['history-abandoned', 'history-exhausted-and-reasked', 'history-timed-out', 'history-real-expiry', 'exhausted-query-reasked-during-probe', 'probe-built-before-history', 'compared-with-first-run', 'probe-next_solution', 'probe-solve', 'probe-solve_all', 'has-answers']}
 OPTS = {'quick': {'selfcheck_mod': 30, 'budget_s': 280}, 'thorough': {'selfcheck_mod': 300, 'budget_s': 3000}}
 STEP_LIMIT = 2_500_000
 NEEDS_HOOKS = True
 BOUNDS = {
     'quick': 'one knowledge base (t1..t6 over the base facts: conjunction, disjunction, recursion, not, cut, arithmetic); histories of 0-2 earlier operations, each = one of 4 queries run by one of: '
              'next_solution x1 then abandoned, next_solution to exhaustion then asked twice more, solve once, solve_all, solve_all with the (modelled) timer firing at its 1st / 3rd observation, '
-             'solve with the timer firing at its 2nd observation, next_solution x1 followed by a real expiry of a timer started with start_query_timer and its cancel_timer; then the probe (each of 4 queries built with make_query after the history, and 4 source texts incl. a zero-arity query built with parse_query) run by next_solution, by solve and by solve_all, and by next_solution with every exhausted query of the history asked again between two answers of the probe; after 1-operation histories also with the probe and its node built before the history and driven by solve / solve_all afterwards; '
-             'the probe\'s answers and output must equal the reference answers of that query',
+             'solve with the timer firing at its 2nd observation, next_solution x1 followed by a real expiry of a timer started with start_query_timer and its cancel_timer; then the probe (each of 6 queries - one with two variables against a head with a constant, one whose answers hold unbound variables - built with make_query after the history, and 4 source texts incl. a zero-arity query built with parse_query) run by next_solution, by solve and by solve_all, and by next_solution with every exhausted query of the history asked again between two answers of the probe; also with the probe and its node built first, then a real timer expiry, then driven by solve / solve_all; '
+             'the probe\'s answers and output must equal the reference answers of that query; solve_all probes are also asked once before the history and must return the very same strings afterwards',
     'thorough': 'histories of up to 3 operations',
 }
-OUTSIDE = 'resuming an older, unfinished solution node after a newer query was constructed (one query at a time, as documented; asking an exhausted older query again is inside the claim); a query built before another one timed out and then driven by bare next_solution (the stop flag is lowered by the query constructors and by solve / solve_all, not by next_solution: test_query_timer pins that the flag stays up after a timeout); real elapsed time'
+OUTSIDE = 'resuming an older, unfinished solution node after a newer query was constructed (one query at a time, as documented; asking an exhausted older query again is inside the claim); a query that waits while another query is constructed (make_query restarts the variable numbering: one query at a time, as documented) or that is driven by bare next_solution after a timeout (the stop flag is lowered by the query constructors and by solve / solve_all, not by next_solution: test_query_timer pins that the flag stays up after a timeout); real elapsed time'
 ASSUMPTIONS = ['the timer firing is the modelled event / the cfg(suiron_verif) countdown hook natively',
                'a timer that a driver call leaves running (never cancelled) is allowed to fire at any of the first observations of the next query']
 
@@ -34,8 +34,10 @@ KB = [
     (C('t6', X), AND(gc('n', Y), U(X, F('add', Y, I(1))))),
     (C('t7', X), AND(gc('h', X), gc('eq', Y, I(7)), gc('pr', Y, Z, W))),
     (C('ready'), gc('p', A('a'))),
+    # a head with a constant in a variable position and a variable that only the body has: its fresh ids must not meet the query's
+    (C('t8', X, A('k')), gc('r', X, Z)),
 ]
-QUERIES = [C('t1', X), C('t3', X), C('t4', X), C('t6', X)]
+QUERIES = [C('t1', X), C('t3', X), C('t4', X), C('t6', X), C('t8', X, Y), C('t7', X)]
 HQ = [C('t2', X), C('t3', X), C('t5', X), C('t1', A('b'))]
 HOPS = ['next1', 'exhaust', 'solve', 'solve_all', 'solve_all_fire0', 'solve_all_fire2', 'solve_fire1', 'expire']
 PROBES = ['next_solution', 'solve', 'solve_all']
@@ -60,8 +62,9 @@ def cases(tier, seed):
             for pr in PROBES + (['next_solution+reask'] if any(op == 'exhaust' for _, op in h) else []):
                 if len(h) == 2 and (qi + len(out)) % 2: continue
                 out.append({'id': 'history %s then probe %s via %s' % ([('%s:%s' % (P.ttext(HQ[q]), op)) for q, op in h], P.ttext(QUERIES[qi]), pr), 'hist': h, 'probe': qi, 'via': pr})
-                if pr in ('solve', 'solve_all') and len(h) == 1:
-                    # the probe (query and base node) is built before the history runs and driven afterwards: the drivers lower the stop flag themselves
+                if pr in ('solve', 'solve_all') and len(h) == 1 and h[0][1] == 'expire' and h[0][0] == 0:
+                    # the probe (query and base node) is built, then a timer really expires (no other query is constructed in between: that
+                    # would restart the variable numbering under the waiting probe, which the crate documents as unsupported), then it is driven
                     out.append({'id': 'probe %s built first, history %s, then driven via %s' % (P.ttext(QUERIES[qi]), [('%s:%s' % (P.ttext(HQ[q]), op)) for q, op in h], pr),
                                 'hist': h, 'probe': qi, 'via': pr, 'prebuilt': True})
     return out
@@ -85,12 +88,21 @@ def run(drv, case):
     tags = set()
     exhausted_nodes = []
     pre = None
+    baseline = None
     try:
+        if case['via'] == 'solve_all' and 'text' not in case and case['hist']:
+            # the probe asked once before anything else: the very same strings must come back after the history (unbound variables
+            # in answers are printed with their ids, so this also pins that the numbering starts afresh for every query)
+            bq = drv.query([drv.term(t) for t in probe[1]])
+            baseline = drv.solve_all(drv.base(bq, kb))
+            if m.timer is not None and m.timer.get('armed'): baseline = None
         if case.get('prebuilt'):
             pq = drv.query([drv.term(t) for t in probe[1]])
             pre = (pq, drv.base(pq, kb))
             tags.add('probe-built-before-history')
         for qi, op in case['hist']:
+            if pre is not None:
+                drv.expire(); tags.add('history-timed-out'); tags.add('history-real-expiry'); continue
             hq = HQ[qi]
             q = drv.query([drv.term(t) for t in hq[1]])
             node = drv.base(q, kb)
@@ -176,6 +188,9 @@ def run(drv, case):
                 if s != exp:
                     raise Violation('probe-wrong-answer', '%s: the probe returns %r, expected %r' % (desc, s, exp))
             if got: tags.add('has-answers')
+            if baseline is not None and not leaked and got != baseline:
+                raise Violation('probe-differs-from-first-run', '%s: asked first the probe returned %r, after the history %r' % (desc, baseline, got))
+            if baseline is not None: tags.add('compared-with-first-run')
     except ScenarioEnd as e:
         raise Violation('history-%s' % e.why[0], '%s: %s' % (desc, e.why[1][:200]))
     return {'tags': list(tags), 'note': desc, 'hooks': True}
